@@ -111,6 +111,8 @@ def run(ctx):
     ntrees = ctx.n(70, 600)
     cases, records = [], []
     sens_terms = []
+    ids_cases = []
+    tree_cases = []
 
     def one_tree(inputs, output, size_dict, path, label, probe=False):
         N = len(inputs)
@@ -160,6 +162,18 @@ def run(ctx):
                     cases.append(("%s/%s/chi=%s/late=%s" % (label, oname, chi, late),
                                   "if %s then %s else %s" % (sens, rhs, term), rhs))
                     sens_terms.append(sens)
+                    if chi == HUGE:
+                        # the trees the model's run builds are the nodes the real traversal lists, and the
+                        # cap satisfies the hypothesis of C20_uncapped_exact_steps
+                        bigprod = oracle.prod(size_dict[ix] for ix in {ix for t in inputs for ix in t})
+                        tree_cases.append(("%s/%s/late=%s" % (label, oname, late),
+                                           "(map sorted_leaves (run_trees {c} {l} (ccs_init {n}) (leaf_forest {n}) {o}), "
+                                           "Z.leb (size_of (szd {n}) (universe {n})) {c})".format(
+                                               c=coq(Z(chi)), l=coq(late), n=netl, o=order_lit(trav)),
+                                           coq(([sorted(p) for p, _, _ in trav], bigprod <= HUGE))))
+                    ids_cases.append(("%s/%s/chi=%s/late=%s" % (label, oname, chi, late),
+                                      "ids_ok {c} {l} {n} {o}".format(c=coq(Z(chi)), l=coq(late), n=netl,
+                                                                     o=order_lit(trav)), "true"))
                     records.append(dict(rec, chi=chi, compress_late=late))
                 k += 1
             # ---------------- oracle ----------------------------------------------------
@@ -242,6 +256,15 @@ def run(ctx):
         rec.update(model_value=val, case=label,
                    correspondence="Model/Compressed.v ccs_trace vs compressed_contract_stats with a recording tracker")
         ctx.fail("model and implementation disagree on the compressed-contraction trace", rec, found_input=False)
+    # hypothesis of the peak / total_size theorems, evaluated for every compared run
+    for idx, label, val in ctx.coq_cases("c20_ids_ok", ["Compressed", "CompressedPeakFacts"], ids_cases, chunk=60, timeout=900):
+        rec = dict(records[idx]) if idx < len(records) else {}
+        rec.update(model_value=val, case=label)
+        ctx.fail("ids_ok (hypothesis of C20_total_size_is_sum_of_node_sizes / C20_capped_le_uncapped_peak) is false "
+                 "for a traversal the real tree produced", rec, found_input=False)
+    for idx, label, val in ctx.coq_cases("c20_run_trees", ["Compressed", "NetFacts", "CompressedExactFacts"], tree_cases, chunk=40, timeout=900):
+        ctx.fail("run_trees (the trees of C20_uncapped_exact_steps) are not the nodes the real traversal lists, or the "
+                 "cap hypothesis fails", {"case": label, "model_value": val}, found_input=False)
     # how many of the compared traces were (partly) outside the model because of an unknown set order
     try:
         flags = ctx.coq_eval(["Compressed"], ["[%s]" % "; ".join(sens_terms[i:i + 60])
